@@ -73,15 +73,53 @@ class BodyError(Exception):
     """the scripted exception a body raises"""
 
 
+class HarnessBase(BaseException):
+    """a BaseException outside Exception that a scripted body raises"""
+
+
+BUILTIN_ENDS = {"RuntimeError": RuntimeError, "KeyError": KeyError, "TimeoutError": TimeoutError,
+                "StopAsyncIteration": StopAsyncIteration, "CancelledError": asyncio.CancelledError,
+                "BaseException": HarnessBase}
+
+
+def library_exceptions() -> list[str]:
+    """every exception class cashews/exceptions.py defines (of the tree under test), by name"""
+    import cashews.exceptions as ex
+
+    return sorted(n for n, c in vars(ex).items()
+                  if isinstance(c, type) and issubclass(c, BaseException) and c.__module__ == ex.__name__)
+
+
+def scripted_exception(name: str) -> BaseException:
+    import cashews.exceptions as ex
+
+    cls = BUILTIN_ENDS.get(name) or getattr(ex, name, None)
+    if cls is None:
+        cls = type(name, (ex.CacheError,), {})        # a class this tree does not (yet / any more) define
+    exc = cls("scripted")
+    exc._verif_scripted = True
+    return exc
+
+
+def is_scripted(exc) -> bool:
+    if getattr(exc, "_verif_scripted", False):
+        return True
+    # `raise StopAsyncIteration` inside an async generator comes out as RuntimeError(...) from it
+    if isinstance(exc, RuntimeError):
+        inner = exc.__cause__ or exc.__context__
+        return getattr(inner, "_verif_scripted", False)
+    return False
+
+
 class TxAbort(Exception):
     """the scripted exception that leaves a transaction block (rollback)"""
 
 
 PREFIXES = ["", "p:", "q:"]
 TX_MODES = {"f": "FAST", "l": "LOCKED", "s": "SERIALIZABLE"}
-_LOCK_KEY = re.compile(r"^(p:|q:)?locked:K(\d+)$")
+_LOCK_KEY = re.compile(r"^(p:|q:)?(locked|lock:cl):K(\d+)$")
 HELPER_PREFIX = "app:"          # what the `add_prefix` helper middleware of a case puts in front of every key
-_STORED_KEY = re.compile(r"^(app:)?(p:|q:)?locked:[Kk](\d+)$")
+_STORED_KEY = re.compile(r"^(app:)?(p:|q:)?(locked|lock:cl):[Kk](\d+)$")
 
 
 def canon(key):
@@ -90,7 +128,7 @@ def canon(key):
     if isinstance(key, str):
         m = _STORED_KEY.match(key)
         if m:
-            return f"{m.group(2) or ''}locked:K{m.group(3)}"
+            return f"{m.group(2) or ''}{m.group(3)}:K{m.group(4)}"
     return key
 
 
@@ -99,9 +137,10 @@ def is_lock_key(key) -> bool:
 
 
 def knum(key: str) -> int:
-    """model key number of a scripted lock key: 100 * (index of the prefix it is built with) + k"""
+    """model key number of a scripted lock key: 100 * (index of the prefix it is built with) + k
+    (+ 50 for the lock keys of `@cache(lock=True)` functions, `lock:cl:K<k>`: a key space of their own)"""
     m = _LOCK_KEY.match(key)
-    return 100 * PREFIXES.index(m.group(1) or "") + int(m.group(2))
+    return 100 * PREFIXES.index(m.group(1) or "") + (50 if m.group(2) != "locked" else 0) + int(m.group(3))
 
 
 def owner_prefix(key: str, backends: list) -> int | None:
@@ -219,7 +258,27 @@ class LSched(Sched):
         self.max_steps = 4000
         self.skipped_cancels = 0
         self.choices: list[int] = []            # index actually released at each choice point
+        self._keep: list = []
         self.skip_pointless = bool(run.case.get("skip_pointless"))
+
+    async def point(self, label: Any = None):
+        """Sched.point, keeping a strong reference to every future a task ever parked on.  A second coroutine running under
+        the same task id (e.g. a body that the code under test moved into a task of its own and orphaned) can overwrite the
+        `parked` entry of the first; the shadowed one would then be reachable only through itself and be destroyed whenever
+        the cyclic garbage collector happens to run - its `finally` blocks would log at an arbitrary point of the run."""
+        tid = TASK_ID.get()
+        if tid is None:
+            return
+        fut = asyncio.get_running_loop().create_future()
+        self._keep.append(fut)
+        self.parked[tid] = (fut, label)
+        if self._wake is not None:
+            self._wake.set()
+        try:
+            await fut
+        finally:
+            if self.parked.get(tid, (None,))[0] is fut:
+                self.parked.pop(tid, None)
 
     def _pointless(self, tid) -> bool:
         fut, label = self.parked[tid]
@@ -563,7 +622,7 @@ class Run:
         ci = sec.get("ci", 0) * TICK
         run = self
         be = sec.get("be", 0)
-        key = keyname(sec["key"], be)
+        key = keyname(sec["key"], be) if sec["via"] != "clock" else f"lock:cl:K{sec['key']}"
         deco_prefix = PREFIXES[be] + "locked"
         self.log("sec_start", sec=sid, via=sec["via"], key=key, ttl=sec["ttl"], wait=sec["wait"],
                  ci=sec.get("ci", 0), form=sec.get("form"))
@@ -575,11 +634,15 @@ class Run:
                 await run.run_steps(sec.get("body", []))
                 if sec.get("end", "n") == "e":
                     raise BodyError("scripted")
-            except asyncio.CancelledError:
-                how = "c"
-                raise
-            except BaseException:
-                how = "e"
+                if sec.get("end", "n").startswith("x:"):
+                    raise scripted_exception(sec["end"][2:])
+            except BaseException as exc:
+                if is_scripted(exc):
+                    how = sec["end"]          # the body itself ends with an exception of that class
+                elif isinstance(exc, asyncio.CancelledError):
+                    how = "c"
+                else:
+                    how = "e"
                 raise
             finally:
                 run.log("body_exit", sec=sid, how=how)
@@ -596,6 +659,19 @@ class Run:
                     return k
 
                 await guarded(sec["key"])
+            elif sec["via"] == "clock":
+                # `@cache(ttl, lock=True)`: the cached function runs inside `decorators.locked(key=<same template>)`
+                # (lock key `lock:cl:K<k>`, wait=True); a call that finds the result cached takes and releases the lock
+                # without running the body.  protected=False: callers contend for the lock instead of sharing one execution
+                if not self.cfg["facade"] or be or self.case.get("backends"):
+                    raise ValueError("@cache(lock=True) sections need a facade configuration with the single default backend")
+
+                @self.api(ttl=ttl, key="cl:K{k}", lock=True, protected=False)
+                async def cached(k):
+                    await body()
+                    return k
+
+                await cached(sec["key"])
             elif sec["via"] == "gen":
                 chunks = sec.get("body", [])
 
@@ -611,14 +687,18 @@ class Run:
                             run.log("gen_resume", sec=sid)
                         if sec.get("end", "n") == "e":
                             raise BodyError("scripted")
-                    except asyncio.CancelledError:
-                        how = "c"
-                        raise
+                        if sec.get("end", "n").startswith("x:"):
+                            raise scripted_exception(sec["end"][2:])
                     except GeneratorExit:
                         how = "g"         # the consumer stopped iterating: closed at the yield point
                         raise
-                    except BaseException:
-                        how = "e"
+                    except BaseException as exc:
+                        if is_scripted(exc):
+                            how = sec["end"]
+                        elif isinstance(exc, asyncio.CancelledError):
+                            how = "c"
+                        else:
+                            how = "e"
                         raise
                     finally:
                         run.log("body_exit", sec=sid, how=how)
@@ -626,17 +706,20 @@ class Run:
                 await self.consume(guarded_gen(sec["key"]), sec)
             else:
                 raise ValueError(f"unknown via {sec['via']!r}")
-        except LockedError:
-            outcome = "locked"
-        except BodyError:
-            outcome = "exc"
-        except asyncio.CancelledError:
-            outcome = "cancelled"
-            raise
         except Livelock:
             raise
-        except Exception as exc:      # anything else the code under test raised
-            outcome = "other:" + type(exc).__name__
+        except BaseException as exc:
+            if isinstance(exc, BodyError) or is_scripted(exc):
+                outcome = "exc"           # the scripted end of the body (of whatever class) came out of the section
+            elif isinstance(exc, LockedError):
+                outcome = "locked"
+            elif isinstance(exc, asyncio.CancelledError):
+                outcome = "cancelled"
+                raise
+            elif isinstance(exc, Exception):      # anything else the code under test raised
+                outcome = "other:" + type(exc).__name__
+            else:
+                raise
         finally:
             self.log("outcome", sec=sid, outcome=outcome)
             SEC.reset(tok)
